@@ -61,8 +61,10 @@ def execute(dev):
             cfg, font, data = inproc.build_direct(texts, dict(over, reuse_tolerance=tol))
         except Exception as e:
             import traceback
+            # tolerance 0 fails in picosvg's normalisation whatever the scene and the format: one finding, one signature
+            sig = '[["tol","0"]]' if which == "reuse" and tol == 0 and isinstance(e, ZeroDivisionError) else None
             return [bad("C06.both-builds-succeed", f"{which} build (tolerance {tol}): {type(e).__name__}: {e} :: {traceback.format_exc()[-300:]}",
-                        fp=f"exc:{which}:{type(e).__name__}")]
+                        sig=sig, fp=f"exc:{which}:{type(e).__name__}")]
         fonts[which] = (cfg, font)
     cfg, fr = fonts["reuse"]
     _, fn = fonts["noreuse"]
